@@ -9,5 +9,7 @@ open RV.C02
 #print axioms default_always_exists
 #print axioms empty_or_unknown_is_empty
 #print axioms union_view
+#print axioms triples_choices
+#print axioms path_pattern_graph
 #print axioms prefix_empty_graph_falls_back
 #print axioms prefix_graphs_of_triple_lists_default
